@@ -142,6 +142,11 @@ def parser_work(item):
                     # for listing lines always the documented ValueError
                     part.violation({"kind": "wrong-exception-type", "family": family, "exc": type(exc).__name__},
                                    {"line": repr(m), "exc": repr(exc)}, replay={"parser": [family, m.decode("latin-1")]})
+            except report.ItemTimeout:
+                # the wall-clock budget of this work item ran out inside this very call: it does not return
+                part.violation({"kind": "parser-does-not-return", "family": family},
+                               {"line": repr(m), "budget_s": ITEM_BUDGET}, replay={"parser": [family, m.decode("latin-1")]})
+                return part
             except BaseException as exc:      # noqa
                 part.violation({"kind": "base-exception", "family": family, "exc": type(exc).__name__},
                                {"line": repr(m), "exc": repr(exc)}, replay={"parser": [family, m.decode("latin-1")]})
@@ -398,6 +403,7 @@ VALID = ["USER anonymous", "PASS x", "CWD d", "MKD n", "RETR d/f", "STOR n", "RE
          "PBSZ 0", "PROT P"]
 
 
+ITEM_BUDGET = float(__import__("os").environ.get("VERIF_C19_ITEM_BUDGET", "120"))     # wall-clock seconds per work item
 STALL_LIMIT = float(__import__("os").environ.get("VERIF_STALL_LIMIT", "6"))
 
 
@@ -656,7 +662,18 @@ def run(tier, seed, t0):
     core += [b"PASS \xff\xfe\r\n", b"PASS " + b"x" * (2 ** 16 + 5) + b"\r\n", ("eof", b"PASS p"), b"PASS wrong\r\n"]
     for state in ("fresh", "pending", "alice"):
         sitems += [(core[i:i + 30], solo, state) for i in range(0, len(core), 30)]
-    parts = report.pmap(parser_work, parser_items) + report.pmap(client_work, citems) + report.pmap(server_work, sitems)
+    def hung(kind):
+        def on_timeout(item):
+            # a synchronous endless loop in the code under test: the simulated loop never gets control back
+            part_ = report.Partial()
+            what = repr(item)[:300]
+            part_.violation({"kind": kind + "-does-not-return"}, {"item": what, "budget_s": ITEM_BUDGET},
+                            replay={"hung": [kind, what]})
+            return part_
+        return on_timeout
+    parts = report.pmap(parser_work, parser_items, budget=ITEM_BUDGET, on_timeout=hung("parser")) \
+        + report.pmap(client_work, citems, budget=ITEM_BUDGET, on_timeout=hung("client")) \
+        + report.pmap(server_work, sitems, budget=ITEM_BUDGET, on_timeout=hung("server"))
     parts.append(parser_termination(tier))
     part = report.merge_all(parts)
     bounds = {"parser_seeds": {"unix": len(UNIX), "windows": len(WINDOWS), "mlsx": len(MLSX), "pasv": len(PASV), "epsv": len(EPSV),
@@ -701,7 +718,10 @@ def replay(path):
         return 1 if hung else 0
     if "parser" in rp:
         fam, text = rp["parser"]
-        part = parser_work((fam, [text.encode("latin-1")], 0))
+        part = report.pmap(parser_work, [(fam, [text.encode("latin-1")], 0)], budget=60, on_timeout=lambda it: None)[0]
+        if part is None:
+            print(json.dumps({"family": fam, "line": text, "returned_within_60s": False}))
+            return 1
         vs = [v for v in part.violations if v["replay"] == {"parser": [fam, text]}]
         print(json.dumps([v["detail"] for v in vs], indent=1, default=repr))
         return 1 if vs else 0
